@@ -277,6 +277,7 @@ def extract(tree):
         raise ExtractError("cfun_fiber_new: arity check shape changed")
     new_max_min_arity = int(mm.group(1))
     cs = _fb(vmr, "janet_continue_signal")
+    walk_refuses_root = False
     tail = r".*child->gc\.flags \|= sig << JANET_FIBER_STATUS_OFFSET;\s*child->flags \|= JANET_FIBER_RESUME_SIGNAL;"
     if re.search(r"JanetFiber \*child = fiber;\s*while \(child->child\) child = child->child;" + tail, cs, re.S):
         walk_guarded = False
@@ -284,6 +285,14 @@ def extract(tree):
                    r"while \(child->child && janet_fiber_status\(child->child\) != JANET_STATUS_ALIVE\) \{\s*child = child->child;\s*"
                    r"if \(step\+\+ & 1\) slow = slow->child;\s*if \(child == slow\) break;\s*\}" + tail, cs, re.S):
         walk_guarded = True
+    elif re.search(r"JanetFiber \*child = fiber;\s*JanetFiber \*slow = fiber;\s*int step = 0;\s*"
+                   r"while \(child->child && janet_fiber_status\(child->child\) != JANET_STATUS_ALIVE\) \{\s*child = child->child;\s*"
+                   r"if \(child->gc\.flags & JANET_FIBER_FLAG_ROOT\) \{\s*(?:#ifdef JANET_EV\s*)?\*out = janet_cstringv\(\"cannot cancel root fiber, use ev/cancel\"\);\s*"
+                   r"(?:#else\s*\*out = janet_cstringv\(\"cannot cancel root fiber\"\);\s*#endif\s*)?return JANET_SIGNAL_ERROR;\s*\}\s*"
+                   r"if \(step\+\+ & 1\) slow = slow->child;\s*if \(child == slow\) break;\s*\}" + tail, cs, re.S):
+        # the walk refuses a descendant that is a task of the event loop before anything is marked
+        walk_guarded = True
+        walk_refuses_root = True
     else:
         raise ExtractError("janet_continue_signal: shape changed")
     # run_vm start: pending signal
@@ -350,7 +359,7 @@ def extract(tree):
     user_max, user_base = int(m.group(1)), sig[m.group(2)]
     return dict(sig=sig, stat=stat, signames=signames, statnames=statnames, env=env, usern=usern, default_mask=default_mask,
                 letters=letters, envmodes=envmodes, refuse=refuse, cancel_sig=cancel_sig, prop_max=prop_max, next_nil=next_nil,
-                next_skip=next_skip, user_max=user_max, user_base=user_base, walk_guarded=walk_guarded, stale_cleared=stale_cleared, chain_alive=chain_alive, prop_refuses_dead=prop_refuses_dead, first_uses_arity=first_uses_arity, new_max_min_arity=new_max_min_arity,
+                next_skip=next_skip, user_max=user_max, user_base=user_base, walk_guarded=walk_guarded, walk_refuses_root=walk_refuses_root, stale_cleared=stale_cleared, chain_alive=chain_alive, prop_refuses_dead=prop_refuses_dead, first_uses_arity=first_uses_arity, new_max_min_arity=new_max_min_arity,
                 guard_after=guard_after, recursion_guard=recursion_guard, env_alloc=env_alloc)
 
 
@@ -395,6 +404,8 @@ def render(tree):
     o.append("abbrev userMax : Nat := %d" % x["user_max"])
     o.append("/-- janet_continue_signal's walk to the innermost child stops at a running child and breaks cycles -/")
     o.append("abbrev cancelWalkGuarded : Bool := %s" % ("true" if x["walk_guarded"] else "false"))
+    o.append("/-- that walk refuses (\"cannot cancel root fiber, use ev/cancel\") when it meets a descendant with JANET_FIBER_FLAG_ROOT, before it marks anything -/")
+    o.append("abbrev cancelWalkRefusesRoot : Bool := %s" % ("true" if x["walk_refuses_root"] else "false"))
     o.append("/-- janet_continue_no_check drops `fiber->child` when that child refused because it is alive -/")
     o.append("abbrev staleChildCleared : Bool := %s" % ("true" if x["stale_cleared"] else "false"))
     o.append("/-- janet_continue_no_check marks a fiber alive before continuing its child (pass-through activation) -/")
